@@ -53,7 +53,8 @@ def run(ctx):
     if quick:
         byte_lens = "(0..200) \\cup {2047, 2048, 4100}"
         sweep_all = []
-        sweep_extra = [rnd.randrange(9, MAX_PADDED) for _ in range(40)]
+        # 40 seeded lengths + the padding residues 64..127 mod 128 (4096..4159 of the fixed list has 0..63)
+        sweep_extra = [rnd.randrange(9, MAX_PADDED) for _ in range(40)] + list(range(4160, 4224))
         shape_n = [0, 1000]
         grid = "FALSE"
         subsets = {"shape": 6, "sweep": 1, "inject": 3}
